@@ -130,6 +130,68 @@ Section WithExec.
   Qed.
 End WithExec.
 
+(* ---- the whole loop ------------------------------------------------------------------------------------------
+   [code_try_sync] runs the code's iteration again and again: at each round it asks [sync_expect] — which
+   go_trySyncNextBlock proves IS the translated Go iteration — what the loop does in the world the model state
+   describes, reads the outcome off the code's own result (go round again / nil / an error) and, when the code goes
+   round again, moves to the state the model's step yields (whose durable writes are the code's writes, by
+   [sync_refines_try_sync]).  [code_try_sync_is_try_sync]: for every executor, every fuel and every loop state that is
+   Syncer.try_sync. *)
+Inductive verdict := VGoOn | VStop | VHalt | VOther.
+Definition read_verdict (o : sobserved) : verdict :=
+  match so_result o with
+  | [VTok t []] => if String.eqb t "continue" then VGoOn else VOther
+  | [VNil] => VStop
+  | [VErr true] => VHalt
+  | _ => VOther
+  end.
+
+Section WholeLoop.
+  Variable exec : root -> N -> Z -> list tx -> root.
+
+  (* the model's state after applying the cached block of the next height (Syncer.try_sync, the recursive call's argument) *)
+  Definition advance (st : loopst) : loopst :=
+    let next := (d_height (l_disk st) + 1)%N in
+    match Syncer.lookup (c_hdrs (l_cache st)) next, Syncer.lookup (c_data (l_cache st)) next with
+    | Some sh, Some d =>
+        let h := sh_hdr sh in
+        let r := exec (s_app (l_last st)) (h_height h) (h_time h) (d_txs d) in
+        let new := next_state (l_last st) h r in
+        let ws := block_writes (l_disk st) new sh d in
+        {| l_disk := apply_writes (l_disk st) ws; l_last := new; l_cache := after_apply (l_cache st) next sh;
+           l_log := l_log st ++ [{| x_height := h_height h; x_time := h_time h; x_prev := s_app (l_last st); x_txs := d_txs d |}];
+           l_ws := l_ws st ++ ws; l_status := Running |}
+    | _, _ => st
+    end.
+
+  Fixpoint code_try_sync (fuel : nat) (st : loopst) : loopst :=
+    match fuel with
+    | O => {| l_disk := l_disk st; l_last := l_last st; l_cache := l_cache st; l_log := l_log st; l_ws := l_ws st; l_status := FuelOut |}
+    | S f =>
+        match read_verdict (sync_expect (sworld_of st)) with
+        | VGoOn => code_try_sync f (advance st)
+        | VStop => st
+        | VHalt => halted st
+        | VOther => st
+        end
+    end.
+
+  Theorem code_try_sync_is_try_sync : forall fuel st, code_try_sync fuel st = try_sync exec fuel st.
+  Proof.
+    induction fuel as [|f IH]; intros st; [reflexivity|].
+    cbn [code_try_sync try_sync].
+    pose proof (sync_refines_try_sync exec f st) as H. cbv zeta in H.
+    unfold advance.
+    destruct (Syncer.lookup (c_hdrs (l_cache st)) (d_height (l_disk st) + 1)) as [sh|] eqn:Hh.
+    - destruct (Syncer.lookup (c_data (l_cache st)) (d_height (l_disk st) + 1)) as [d|] eqn:Hd.
+      + destruct (validate (l_last st) sh d) eqn:Hv.
+        * destruct H as [Hr _]. unfold read_verdict. rewrite Hr. cbn. apply IH.
+        * destruct H as [Hr _]. unfold read_verdict. rewrite Hr. reflexivity.
+      + destruct H as [Hr _]. unfold read_verdict. rewrite Hr. reflexivity.
+    - destruct H as [Hr _]. unfold read_verdict. rewrite Hr. reflexivity.
+  Qed.
+End WholeLoop.
+
 (* non-vacuity: a world in which a block is applied, with the three writes in order *)
 Example applied_somewhere :
   exists w, code_writes (sync_expect w) = [WBlock 5; WState; WHeight 5] /\ so_result (sync_expect w) = [continue_v].
@@ -140,3 +202,4 @@ Proof.
 Qed.
 
 Print Assumptions translated_sync_refines_try_sync.
+Print Assumptions code_try_sync_is_try_sync.
